@@ -334,7 +334,22 @@ def run(ctx):
             ctx.tick(3, ("triple", ver, len(set(combo)), combo[0] == combo[2]))
             for c, i, e, o in v[:3]:
                 ctx.violation(c, {"kind": "point_batch", "version": ver, "le": cl.tolist(), "b": cb.tolist(), "idx": int(i)}, e, o)
-        # same-value clamp: beta < beta_min bit-identical to beta_min
+        # the aftermath of a refused call: the 7-event alphabet as ONE batch with one event's energy outside the table, at
+        # every position in turn (the refusal may come after other angle classes were already evaluated), each followed by
+        # the valid batch in a rotated order ON THE SAME OBJECT, judged lane by lane against the table
+        al = np.array([e[0] for e in ev]); ab = np.array([e[1] for e in ev])
+        for ppos in range(len(ev)):
+            for outside in (12.5, 5.5):
+                pl = al.copy(); pl[ppos] = outside
+                try:
+                    taus(ver).tau_exit_prob(ab.copy(), pl)
+                except Exception:
+                    pass
+                rl, rb = np.roll(al, ppos + 1), np.roll(ab, ppos + 1)
+                v, _ = judge_points(ver, rl, rb)
+                ctx.tick(len(ev), ("after_refused", ver, ppos < 3, outside > 12))
+                for c, i, e, o in v[:3]:
+                    ctx.violation("history_independent" if c.startswith(("interp", "high", "within")) else c, {"kind": "after_refused", "version": ver, "pos": ppos, "outside": outside}, e, o)
         lo_b = np.array([0.0, bax[0] / 2, np.nextafter(bax[0], 0)])
         for lb in lo_b:
             t = taus(ver)
@@ -390,6 +405,21 @@ def replay(case):
     if k == "node":
         v, _ = judge_nodes(case["version"])
         return [(c, e, o) for c, ij, e, o in v if ij == (case["i"], case["j"])]
+    if k == "after_refused":
+        import itertools as _it
+        T = TR.load(case["version"]); lax = T["pexit_axes"]["log_e_nu"]; bax = T["pexit_axes"]["beta_rad"]
+        ev = [(float(lax[0]), float(bax[3])), (float(lax[-1]), float(0.5 * (bax[5] + bax[6]))), (8.0, float(bax[0] / 2)),
+              (float(0.5 * (lax[10] + lax[11])), float(bax[-1])), (9.25, math.radians(60)), (float(lax[7]), float(0.5 * (bax[20] + bax[21]))), (8.0, float(bax[10]))]
+        al = np.array([e[0] for e in ev]); ab = np.array([e[1] for e in ev])
+        pl = al.copy(); pl[case["pos"]] = case["outside"]
+        t = taus(case["version"], fresh=True)
+        _T[case["version"]] = t
+        try:
+            t.tau_exit_prob(ab.copy(), pl)
+        except Exception:
+            pass
+        v, _ = judge_points(case["version"], np.roll(al, case["pos"] + 1), np.roll(ab, case["pos"] + 1))
+        return [("history_independent" if c.startswith(("interp", "high", "within")) else c, e, o) for c, i, e, o in v]
     if k == "point_batch":
         v, _ = judge_points(case["version"], np.array(case["le"]), np.array(case["b"]), fresh=True)
         return [(c, e, o) for c, i, e, o in v]
